@@ -53,7 +53,7 @@ Theorem failed_outcome_is_bare : forall w o, In o (attempt w) -> o_ok o = false 
 Proof. exact failed_has_no_victims. Qed.
 Print Assumptions failed_outcome_is_bare.
 
-(* the code before commit 8513f58 violated commit_covers_ask (witness replayed on the real code, corpus case 1) *)
+(* the code before commit 8513f58 violated commit_covers_ask (witness replayed on the real code: corpus/preempt.json queue[0]) *)
 Theorem commit_covers_ask_refuted_pinned :
   exists w o, wf_world w = true /\ In o (tryPreemptionF false w) /\ o_ok o = true /\
               covers_ask w (o_node o) (victims_of w (o_victims o)) = false.
@@ -78,6 +78,15 @@ Theorem preemptable_le_excess : forall w q p,
 Proof. exact preemptable_within_excess. Qed.
 Print Assumptions preemptable_le_excess.
 
+(* the code before commit 78b7ad8 claimed more than the excess for a type without guaranteed quantity in the child
+   (witness replayed on the real code: corpus/preempt.json quota[2]) *)
+Theorem claimed_le_excess_refuted_pinned :
+  exists w q lq p order, wf_world w = true /\ In q (w_queues w) /\ In lq (w_queues w) /\
+    quota_contextsF true w q = QVal [(q_id lq, p)] /\ quota_order_ok w lq p order = true /\
+    claimed_within (setPreemptable w q) (lo_claimed (quota_leaf_order w lq p order)) = false.
+Proof. exact claimed_le_excess_pinned_refuted. Qed.
+Print Assumptions claimed_le_excess_refuted_pinned.
+
 (* only child queues above their guaranteed share receive a share of what the parent has to give back *)
 Theorem never_below_guarantee : forall w q l, wf_world w = true -> q_leaf q = false ->
   quota_contexts w q = QVal l -> forall ir, In ir l ->
@@ -101,7 +110,7 @@ Print Assumptions rearm_time_is_now_plus_delay.
 Theorem quota_never_crashes : forall w q, quota_contexts w q <> QCrash.
 Proof. exact QuotaProofs.quota_never_crashes. Qed.
 Print Assumptions quota_never_crashes.
-(* the code before commit 832f432 dereferenced a nil resource (witness replayed on the real code, corpus quota case 1) *)
+(* the code before commit 832f432 dereferenced a nil resource (witness replayed on the real code: corpus/preempt.json quota[0]) *)
 Theorem quota_never_crashes_refuted_pinned :
   exists w q, wf_world w = true /\ In q (w_queues w) /\ quota_contextsF true w q = QCrash.
 Proof. exact quota_never_crashes_pinned_refuted. Qed.
